@@ -91,17 +91,20 @@ Proof.
   assert (Hproceed : PendInv x
     match class_of W s with
     | SNode => (set_slot st s (BMod (node_module s))) <| st_has_node := true |>
+    | SPass => set_slot st s (BExternal false)
     | SBad => set_slot st s (BErr (BBadSpecifier s range))
     | SUrl => queue_load st s range asset in_dyn root attr count
     end).
   { destruct (class_of W s).
     - apply queue_load_inv. exact H.
     - eapply PendInv_ext; [| |apply (set_slot_nonpending_inv x st s (BMod (node_module s)) H eq_refl)]; reflexivity.
+    - apply set_slot_nonpending_inv; [exact H | reflexivity].
     - apply set_slot_nonpending_inv; [exact H | reflexivity]. }
   assert (Hproceed' : PendInv x
     (if has_key s (st_redirects st) then set_slot st s (BErr (BLoad s range 1))
      else match class_of W s with
           | SNode => (set_slot st s (BMod (node_module s))) <| st_has_node := true |>
+          | SPass => set_slot st s (BExternal false)
           | SBad => set_slot st s (BErr (BBadSpecifier s range))
           | SUrl => queue_load st s range asset in_dyn root attr count
           end)).
